@@ -1,6 +1,8 @@
 import M3d.Lemmas.ConcDcl
 import M3d.Lemmas.ConcPatterns
 import M3d.Lemmas.ConcQuery
+import M3d.Lemmas.ConcCollect
+import M3d.Lemmas.ConcStrided
 import M3d.Gen.ConcFacts
 /-!
 # C13 — concurrent read-only use is race-free and matches sequential use
@@ -163,6 +165,35 @@ example :
     ((List.range 3).all fun t => done p c t) = true ∧ mergeOrder c = [2, 0, 1] ∧ c.mem ACC = 60 := by
   decide
 
+/-- **The mutex-guarded reduction equals one goroutine, for every worker count.**  With the
+library's strided hand-out (goroutine `s < maxGos` folds the findings `g i` of the indices
+`s, s+maxGos, … < n` into its partial result) and a commutative-associative `merge` with unit
+`0`: for every `maxGos ≥ 1`, every `n` and every schedule, when the workers are done the
+accumulator is the fold over `0 … n-1` in order — what `maxGos = 1` computes. -/
+theorem mutex_reduction_eq_sequential_all_worker_counts (merge : Val → Val → Val)
+    (hc : ∀ a b, merge a b = merge b a) (ha : ∀ a b c, merge (merge a b) c = merge a (merge b c))
+    (h0 : ∀ a, merge 0 a = a) (g : Nat → Val) (maxGos n : Nat) (hm : 0 < maxGos) (sched : Schedule) :
+    let loc : Tid → Val := fun s => (strided maxGos n s).foldl (fun a i => merge a (g i)) 0
+    let p := reduceProgN merge loc maxGos
+    let c := run p Config.init sched
+    raceFree p sched = true ∧
+    ((∀ t, t < maxGos → done p c t = true) →
+      c.mem ACC = (List.range n).foldl (fun a i => merge a (g i)) 0) := by
+  intro loc p c
+  obtain ⟨h1, h2⟩ := mutex_reduction_correct merge hc ha loc maxGos sched
+  refine ⟨h1, fun hd => ?_⟩
+  rw [h2 hd]
+  exact strided_partials_eq_sequential merge hc ha h0 g hm n
+
+/-- Non-vacuity: 2 workers, 5 indices with findings `i + 1`; both done; `1 + … + 5`. -/
+example :
+    let loc : Tid → Val := fun s => (strided 2 5 s).foldl (fun a i => a + (i + 1)) 0
+    let p := reduceProgN (· + ·) loc 2
+    let c := run p Config.init [0, 1, 0, 0, 0, 0, 1, 1, 1, 1]
+    ((List.range 2).all fun t => done p c t) = true ∧ c.mem ACC = 15 ∧
+      (List.range 5).foldl (fun a i => a + (i + 1)) 0 = 15 := by
+  decide
+
 /-- The same reduction with the `Lock`/`Unlock` dropped has a schedule with a data race and a
 lost update (two workers, decided): this is what the facts check guards against. -/
 theorem reduction_without_lock_racy :
@@ -171,6 +202,86 @@ theorem reduction_without_lock_racy :
       raceFree p sched = false ∧ (run p Config.init sched).mem ACC ≠ 30 ∧
       ((List.range 2).all fun t => done p (run p Config.init sched) t) = true :=
   ⟨[0, 1, 0, 1, 0, 1], by decide⟩
+
+/-! ### Per-goroutine buffers handed to a reduce function: `DualContouring.populateEdges` -/
+
+/-- **What every worker collected in a buffer of its own reaches the shared result exactly once.**
+`ReduceConcurrentMap(maxGos, n, factory)`: each of the `N` goroutines calls the factory, which
+binds the goroutine's buffer (`base t` = identity of its backing array), stores what it finds
+(`v t`, the worker's partial list) in it with plain writes, and finally — under the launcher's
+mutex — its reduce function reads the buffer and appends it to the shared result
+(`*interior = append(*interior, localInterior...)`).  If different goroutines have different
+backing arrays (`hinj`; what `var localInterior []Coord3D` + `append` gives), then for every
+commutative-associative `merge` (the result as a multiset), every `N` and every schedule: no
+data race, and when all workers are done the result is `fold merge 0 [v 0 … v (N-1)]` — every
+worker's findings exactly once, the multiset a single goroutine collects. -/
+theorem collect_reduce_correct (merge : Val → Val → Val)
+    (hc : ∀ a b, merge a b = merge b a) (ha : ∀ a b c, merge (merge a b) c = merge a (merge b c))
+    (base v : Tid → Val) (N : Nat)
+    (hinj : ∀ t t', t < N → t' < N → base t = base t' → t = t') (sched : Schedule) :
+    let p := collectProgN merge base v N
+    let c := run p Config.init sched
+    raceFree p sched = true ∧
+    ((∀ t, t < N → done p c t = true) → c.mem CACC = ((List.range N).map v).foldl merge 0) := by
+  intro p c
+  have I : CollInv merge base v N c := collInv_run merge base v N hinj _ sched (collInv_init merge base v N)
+  refine ⟨List.isEmpty_iff.2 I.norace, fun hd => ?_⟩
+  have hperm := I.order_perm (fun t ht => (coll_done_iff merge base v N c t ht).1 (hd t ht))
+  rw [I.acc]
+  exact foldl_perm_comm_assoc merge hc ha (hperm.map v) 0
+
+/-- **`ReduceConcurrentMap` with per-goroutine buffers equals one goroutine, for every worker
+count.**  Goroutine `s < maxGos` collects the findings `g i` of its strided hand-out
+`s, s+maxGos, … < n` in its own buffer; the reduce functions append the buffers to the shared
+result.  For every commutative-associative `merge` with unit `0` (the result as a multiset),
+every `maxGos ≥ 1`, every `n` and every schedule: no data race, and when the workers are done
+the result is the fold over `0 … n-1` in order — what `MaxGos = 1` computes. -/
+theorem collect_eq_sequential_all_worker_counts (merge : Val → Val → Val)
+    (hc : ∀ a b, merge a b = merge b a) (ha : ∀ a b c, merge (merge a b) c = merge a (merge b c))
+    (h0 : ∀ a, merge 0 a = a) (g : Nat → Val) (maxGos n : Nat) (hm : 0 < maxGos) (base : Tid → Val)
+    (hinj : ∀ t t', t < maxGos → t' < maxGos → base t = base t' → t = t') (sched : Schedule) :
+    let v : Tid → Val := fun s => (strided maxGos n s).foldl (fun a i => merge a (g i)) 0
+    let p := collectProgN merge base v maxGos
+    let c := run p Config.init sched
+    raceFree p sched = true ∧
+    ((∀ t, t < maxGos → done p c t = true) →
+      c.mem CACC = (List.range n).foldl (fun a i => merge a (g i)) 0) := by
+  intro v p c
+  obtain ⟨h1, h2⟩ := collect_reduce_correct merge hc ha base v maxGos hinj sched
+  refine ⟨h1, fun hd => ?_⟩
+  rw [h2 hd]
+  exact strided_partials_eq_sequential merge hc ha h0 g hm n
+
+/-- Non-vacuity: 3 workers, 7 indices with findings `i + 1`, own arrays; all done; the result is
+`1 + … + 7`, what the loop over `0 … 6` gives. -/
+example :
+    let v : Tid → Val := fun s => (strided 3 7 s).foldl (fun a i => a + (i + 1)) 0
+    let p := collectProgN (· + ·) (fun t => t) v 3
+    let c := run p Config.init [0, 1, 1, 1, 2, 1, 0, 1, 2, 1, 2, 2, 2, 2, 0, 0, 0, 0]
+    ((List.range 3).all fun t => done p c t) = true ∧ c.mem CACC = 28 ∧
+      (List.range 7).foldl (fun a i => a + (i + 1)) 0 = 28 := by
+  decide
+
+/-- Non-vacuity: three workers with their own arrays, collecting while others already reduce;
+reduce order 1, 2, 0; all done, result 10 + 20 + 30. -/
+example :
+    let p := collectProgN (· + ·) (fun t => t) (fun t => 10 * (t + 1)) 3
+    let c := run p Config.init [0, 1, 1, 1, 2, 1, 0, 1, 2, 1, 2, 2, 2, 2, 0, 0, 0, 0]
+    ((List.range 3).all fun t => done p c t) = true ∧ collectOrder c = [1, 2, 0] ∧ c.mem CACC = 60 := by
+  decide
+
+/-- **Buffers that share one backing array are not safe**: if the factory cuts every goroutine's
+buffer out of the same array (`localInterior := layout.interiorBuf[:0]` — the slice header is the
+goroutine's, the array is not), two workers that both collect before either reduces write the
+same cell: a data race, and the result holds one worker's finding twice and the other's not at
+all (20 + 20 instead of 10 + 20), although every reduce ran under the mutex.  Decided. -/
+theorem collect_aliased_buffers_racy :
+    let p := collectProgN (· + ·) (fun _ => 0) (fun t => 10 * (t + 1)) 2
+    let s : Schedule := [0, 0, 1, 1, 0, 0, 0, 0, 1, 1, 1, 1]
+    let c := run p Config.init s
+    raceFree p s = false ∧ ((List.range 2).all fun t => done p c t) = true ∧
+    c.mem CACC = 40 ∧ ((List.range 2).map fun t => 10 * (t + 1)).foldl (· + ·) 0 = 30 := by
+  decide
 
 /-! ### Channel hand-out: `render3d.mapCoordinates` -/
 
@@ -490,6 +601,21 @@ theorem facts_locked_sites :
       fun w => !w.effects.isEmpty && w.effects.all (·.kind == .locked)) = true := by
   decide
 
+/-- `DualContouring.populateEdges` is the `collectProgN` instance: its workers write captured
+state only through their own edge (`ownElem`) — in particular the buffer of interior points is
+the goroutine's own, not a slice of captured state — and the only writes of the shared result
+happen in the reduce function, under `ReduceConcurrentMap`'s mutex. -/
+theorem facts_collect_sites :
+    ((ConcFacts.workers.filter fun w =>
+        w.func == "DualContouring.populateEdges#ReduceConcurrentMap.iter1").all
+      fun w => !w.effects.isEmpty && w.effects.all (·.kind == .ownElem)) = true ∧
+    ((ConcFacts.workers.filter fun w =>
+        w.func == "DualContouring.populateEdges#ReduceConcurrentMap.reduce1").all
+      fun w => !w.effects.isEmpty && w.effects.all (·.kind == .locked)) = true ∧
+    (ConcFacts.workers.any fun w =>
+        w.func == "DualContouring.populateEdges#ReduceConcurrentMap.reduce1") = true := by
+  decide
+
 /-- `mapCoordinates` creates a channel with room for every pixel, fills it, closes it and only
 then spawns the workers, each of which ranges over the channel and calls back with the received
 index: the `chanInit`/`chanProg` instance. -/
@@ -529,6 +655,25 @@ theorem facts_queries_cover :
        "render3d.ColliderObject.Cast", "render3d.FilteredObject.Cast", "render3d.JoinedObject.Cast",
        "render3d.PhongMaterial.BSDF", "render3d.colorFuncObject.Cast"] ∧
     300 ≤ ConcFacts.queryMethodCount := by
+  decide
+
+/-- **No query closure writes a variable it did not declare.**  The function literals that become
+the `Contains` / `SDF` / `PointSDF` of a solid or field (`FuncSolid`, `CheckedFuncSolid`,
+`FuncSDF`, `FuncPointSDF`: `SmoothJoin`, `SmoothJoinV2`, `SDFToSolid`, `ProfileSolid`, …) and the
+literals returned as color functions assign only their own locals: no variable captured from the
+constructor (allocated once per solid and shared by all calls) and no package-level variable,
+neither directly nor through a slice alias.  So their working state is state of the call: the
+discipline of `owned_state_noninterference` (`query_field_scratch_racy` otherwise). -/
+theorem facts_query_closures_readonly : ConcFacts.queryClosureWrites = [] := by decide
+
+/-- The closures the previous theorem is about are still found by the extractor. -/
+theorem facts_query_closures_cover :
+    ConcFacts.queryClosureSitesSeen =
+      ["model2d.CacheScalarFunc#return1", "model2d.SmoothJoin#CheckedFuncSolid1",
+       "model2d.SmoothJoinV2#CheckedFuncSolid1", "model3d.ProfileSolid#CheckedFuncSolid1",
+       "model3d.SDFToSolid#CheckedFuncSolid1", "model3d.SmoothJoin#CheckedFuncSolid1",
+       "model3d.SmoothJoinV2#CheckedFuncSolid1"] ∧
+    30 ≤ ConcFacts.queryClosureCount := by
   decide
 
 end M3d.C13
